@@ -90,6 +90,7 @@ TrFitStart ==
 TrDeriv == Is("MDeriv") /\ Deriv(Ev.k, Ev.ok) /\ Consume
 TrTrialSet == Is("MSet") /\ TrialSet(Ev.aid, Ev.ok) /\ Consume
 TrTrialSetAfterFailedJac == Is("MSet") /\ (Strict \cap {"C02", "C03", "C04", "C05", "C09", "C10"} = {}) /\ TrialSetAfterFailedJac(Ev.aid, Ev.ok) /\ Consume
+TrPostFitSet == Is("MSet") /\ (Strict \cap {"C02", "C03", "C04", "C05", "C09", "C10"} = {}) /\ PostFitSet(Ev.aid, Ev.ok) /\ Consume
 TrTrialSetMemo == Is("MSet") /\ MemoOk /\ TrialSetMemo(Ev.aid, Ev.ok) /\ Consume
 TrEvalAfterFailedSet == Is("MEval") /\ EvalAfterFailedSet(Ev.ok) /\ Consume
 TrTrialEval == Is("MEval") /\ (\E dec \in Decisions, keep \in BOOLEAN : (keep => NoC09) /\ TrialEval(Ev.ok, dec, keep)) /\ Consume
@@ -151,7 +152,7 @@ Next == \/ (TrBuildStart /\ jset' = {})
         \/ ((TrDeriv \/ TrCJacDeriv) /\ jset' = IF JacDone THEN jset \cup {tgt} ELSE jset)
         \/ (/\ \/ TrBuildSet \/ TrBuildEval \/ TrBuildEnd
                \/ TrCSet \/ TrCSetEval \/ TrCSetEnd \/ TrCJacEnd
-               \/ TrFitStart \/ TrTrialSet \/ TrTrialSetMemo \/ TrTrialSetAfterFailedJac \/ TrEvalAfterFailedSet \/ TrTrialEval
+               \/ TrFitStart \/ TrTrialSet \/ TrTrialSetMemo \/ TrTrialSetAfterFailedJac \/ TrPostFitSet \/ TrEvalAfterFailedSet \/ TrTrialEval
                \/ TrResetSet \/ TrResetEval \/ TrFitEnd
                \/ TrStaleBuildEval \/ TrStaleCSetEval \/ TrStaleTrialEval
                \/ TrCSetSkip \/ TrTrialSetSkip \/ TrResetSetSkip
